@@ -5,5 +5,5 @@ CONSTANTS
   MaxRep = 6
   KeepMax = TRUE
 CONSTRAINT SimBound
-INVARIANTS Sound Complete RestartNoRegress MemAboveW EmitSim
+INVARIANTS Sound Complete RestartNoRegress PersistDurable MemAboveW EmitSim
 CHECK_DEADLOCK FALSE
